@@ -907,7 +907,8 @@ theorem gates_present_in_tree :
     SdnsVerif.Gen.C01.shape_zone_security_judged_for_serving_zone_answer = true ∧
     SdnsVerif.Gen.C01.shape_zone_security_judged_for_serving_zone_authority = true ∧
     SdnsVerif.Gen.C01.shape_zone_security_judged_for_serving_zone_validateDelegation = true ∧
-    SdnsVerif.Gen.C01.shape_private_lookup_keyed_on_request_cd = true := by
+    SdnsVerif.Gen.C01.shape_private_lookup_keyed_on_request_cd = true ∧
+    SdnsVerif.Gen.C01.shape_window_checked_on_real_clock = true := by
   decide
 
 /-! ## a zone is treated as unsigned only on proof -/
@@ -1220,6 +1221,48 @@ theorem error_is_servfail (e : Err) (hasOPT : Bool) :
 /-- every failing decision of the three validation entry points is such an error reply. -/
 theorem decisions_fail_to_servfail (o : Outcome) (e : Err) (hasOPT : Bool) (_h : o = .fail e) :
     (errorReply e hasOPT).rcode = 2 := rfl
+
+/-! ## the validity window at its edges -/
+
+/-- **the window is closed at both ends and one second wide at its edges**: away from the serial wrap a
+signature is valid at its inception second and at its expiration second, and invalid one second before
+the one and one second after the other — no tolerance either way. (`ValidityPeriod` is the only window
+test of the tree and is handed the real clock: `shape_window_checked_on_real_clock`.) -/
+theorem inWindow_edges (s : Sig) (hle : s.inception ≤ s.expiration)
+    (hspan : s.expiration - s.inception < 2147483647) :
+    inWindow (s.inception : Int) s = true ∧ inWindow ((s.inception : Int) - 1) s = false ∧
+    inWindow (s.expiration : Int) s = true ∧ inWindow ((s.expiration : Int) + 1) s = false := by
+  have h1 := @inWindow_plain (s.inception : Int) s (by omega) (by omega)
+  have h2 := @inWindow_plain ((s.inception : Int) - 1) s (by omega) (by omega)
+  have h3 := @inWindow_plain (s.expiration : Int) s (by omega) (by omega)
+  have h4 := @inWindow_plain ((s.expiration : Int) + 1) s (by omega) (by omega)
+  refine ⟨h1.mpr ⟨by omega, by omega⟩, ?_, h3.mpr ⟨by omega, by omega⟩, ?_⟩
+  · cases h : inWindow ((s.inception : Int) - 1) s
+    · rfl
+    · have := h2.mp h; omega
+  · cases h : inWindow ((s.expiration : Int) + 1) s
+    · rfl
+    · have := h4.mp h; omega
+
+/-- a signature never validates an instant outside `[inception, expiration]` (wrap-free). -/
+theorem inWindow_outside (s : Sig) (now : Int) (hi : ((s.inception : Int) - now).natAbs < 2147483648)
+    (he : ((s.expiration : Int) - now).natAbs < 2147483648)
+    (hout : now < (s.inception : Int) ∨ (s.expiration : Int) < now) : inWindow now s = false := by
+  cases h : inWindow now s
+  · rfl
+  · have := (inWindow_plain s hi he).mp h; omega
+
+-- non-vacuity: a one-hour window, second by second at its edges
+private def edgeSig (inc exp : Nat) : Sig :=
+  { id := 0, owner := [], covered := 1, alg := 13, labels := 0, expiration := exp, inception := inc, tag := 0, signer := [] }
+
+example : [inWindow 1789999999 (edgeSig 1790000000 1790003600), inWindow 1790000000 (edgeSig 1790000000 1790003600),
+    inWindow 1790003600 (edgeSig 1790000000 1790003600), inWindow 1790003601 (edgeSig 1790000000 1790003600)]
+      = [false, true, true, false] := by decide
+-- the same across the 2^31 second (January 2038)
+example : [inWindow 2147483647 (edgeSig 2147483648 2147483649), inWindow 2147483648 (edgeSig 2147483648 2147483649),
+    inWindow 2147483649 (edgeSig 2147483648 2147483649), inWindow 2147483650 (edgeSig 2147483648 2147483649)]
+      = [false, true, true, false] := by decide
 
 /-! ## round 9: CD partitions, cuts, failing alias hops -/
 
